@@ -72,7 +72,7 @@ def run(prop, tier, replay=None):
         notes.append("model: LookupSeesFinal violated; candidate schedule of length %d" % len(cex))
     # 3. schedules: TLC simulation (complete behaviours) + block schedules from the access counts
     rnd = random.Random(A.SEED * 13 + 18)
-    nsim = 30 if tier == "quick" else 200
+    nsim = 30 if tier == "quick" else 1500
     rc2, out2 = tlc_threads("SIM_Threads_%d" % pid, obs, 2, 2, extra=["-deadlock", "-simulate", "num=%d" % nsim, "-depth", "400", "-seed", str(A.SEED)], props=False)
     scheds = []
     for ln in out2.splitlines():
